@@ -1,5 +1,6 @@
 import WK.Prelude.Drv
 import WK.Spec.C06
+import WK.Model.C06_Reactor
 /-
   C06 driver.  ops (see harness/C06/c06.go):
     init <local> <leo> <hw> <ckpt>
@@ -9,6 +10,9 @@ import WK.Spec.C06
     qc <fence> <op|cur> <first|n> <last|n|f> <hw|n> <err>
     ack <cur|k,e,le> <follower> <match>       sack <cur|k,e,le> <follower> <match|leo> <lv> <av>
     pack <follower> <ackOffset>               cancel <op>          abort <op|cur>
+    install <fence> <op|pend> <auth 0|1|2> <leo> <hw> <err>      (handleQuorumInstallResult)
+    ckres <fence> <withResult 0|1> <value> <err>                 (handleStoreCheckpointResult)
+      values: number, or l|h|c|m (LEO, HW, CheckpointHW, max HW seen in this fence) with optional +K / -K
   output line:  e=<err> r=<replies> t=<task> s=<signals> <state>
   The model output must equal the implementation's line; the verdict is the
   property judged on the IMPLEMENTATION's line (and its previous line).
@@ -166,9 +170,40 @@ inductive Parsed where
   | init (localNode leo hw ckpt : Nat)
   | ev (e : Event)
   | plainEv (e : Event)      -- ack family / cancel / abort: printed with `renderPlain`
+  | rev (e : REvent)         -- reactor-level watermark writers
 
-def parseOp (s : State) (op : String) : Parsed :=
+/-- `l` `h` `c` `m` with optional +K / -K, or a number -/
+def parseVal (s : State) (maxHW : Nat) (tok : String) : Option Nat :=
+  match tok.toList with
+  | [] => none
+  | c :: rest =>
+    let base? : Option Nat :=
+      if c == 'l' then some s.leo else if c == 'h' then some s.hw
+      else if c == 'c' then some s.ckpt else if c == 'm' then some maxHW else none
+    match base? with
+    | none => tok.toNat?
+    | some b =>
+      match rest with
+      | [] => some b
+      | sg :: ds =>
+        match (String.ofList ds).toNat? with
+        | none => none
+        | some k => if sg == '+' then some (b + k) else if sg == '-' then some (b - k) else none
+
+def parseOp (s : State) (maxHW : Nat) (op : String) : Parsed :=
   match fields op with
+  | ["install", f, o, a, leo, hw, e] =>
+    if o == "cur" then .bad else
+    match parseFence s f (if o == "pend" then toString installOp else o), a.toNat?, parseVal s maxHW leo,
+          parseVal s maxHW hw, e.toNat? with
+    | some f, some a, some leo, some hw, some e =>
+      if a > 2 then .bad else .rev (.install f a leo hw (errOfCode e))
+    | _, _, _, _, _ => .bad
+  | ["ckres", f, w, v, e] =>
+    match parseFence s f "77", w.toNat?, parseVal s maxHW v, e.toNat? with
+    | some f, some w, some v, some e =>
+      if w > 1 then .bad else .rev (.ckptResult f (w == 1) v (errOfCode e))
+    | _, _, _, _ => .bad
   | ["init", a, b, c, d] =>
     match a.toNat?, b.toNat?, c.toNat?, d.toNat? with
     | some a, some b, some c, some d => .init a b c d
@@ -238,31 +273,64 @@ def parseOp (s : State) (op : String) : Parsed :=
 
 -- -------------------------------------------------------------------- judge --
 
-/-- the property evaluated on the implementation's line `cur` (previous line `prev`) -/
-def judge (ev : Option Event) (prev cur : Obs) : String :=
-  if !judgeWatermarks cur then "viol:watermark-order" else
-  if !judgeMatches cur then "viol:match-exceeds-leo" else
-  if !judgeHWMono prev cur then "viol:hw-decreased-within-fence" else
+/-- the property evaluated on the implementation's line `cur` (previous line `prev`).
+    The state predicates are judged as PRESERVED (prev good ⇒ cur good), so a break is
+    reported once, at the event that causes it.  `lowered` = an accepted quorum install
+    has lowered HW earlier in the current metadata fence; `maxHW` = the highest HW the
+    implementation showed in this fence. -/
+def judge (ev : Option REvent) (prev cur : Obs) (lowered : Bool) (maxHW : Nat) : String :=
+  let wmBad := judgeWatermarks prev && !judgeWatermarks cur
+  let mBad := judgeMatches prev && !judgeMatches cur
+  let hwBad := !judgeHWMono prev cur
+  let unchanged := cur.stateText == prev.stateText && cur.replies.isEmpty
+  let fenceNow (f : Fence) : Bool :=
+    f.key == 1 && f.gen == 7 && f.epoch == prev.epoch && f.lepoch == prev.lepoch
+  -- the two reactor-level writers first: their known way of breaking the property gets
+  -- its own narrow class, everything else falls through to the general verdicts
+  let special : Option String :=
+    match ev with
+    | some (.install f _ leo hw _) =>
+      if !(fenceNow f && f.op == installOp) then
+        (if !(unchanged && cur.err == "ignored") then some "viol:stale-install-had-effect" else none)
+      else if cur.err == "ok" && cur.leo == leo && cur.hw == hw then
+        (if wmBad && cur.hw ≤ cur.leo && cur.ckpt == prev.ckpt && hw < prev.ckpt then
+           some "viol:install-regresses:checkpoint-above-hw"
+         else if hwBad && hw < prev.hw then some "viol:install-regresses:hw-decreased"
+         else if mBad && leo < prev.leo then some "viol:install-regresses:match-exceeds-leo"
+         else none)
+      else none
+    | some (.ckptResult f _ v _) =>
+      if !fenceNow f then
+        (if !unchanged then some "viol:stale-checkpoint-had-effect" else none)
+      else if wmBad && lowered && cur.hw == prev.hw && cur.leo == prev.leo && cur.ckpt == v && v ≤ maxHW then
+        some "viol:checkpoint-above-hw:checkpoint-result-after-install-lowered-hw"
+      else none
+    | _ => none
+  match special with
+  | some v => v
+  | none =>
+  if wmBad then "viol:watermark-order" else
+  if mBad then "viol:match-exceeds-leo" else
+  if hwBad then "viol:hw-decreased-within-fence" else
   if !judgeConsistent cur then "viol:pending-order-inconsistent" else
-  let isQC := match ev with
-    | some (.quorum ..) => true
+  let exempt := match ev with
+    | some (.machine (.quorum ..)) => true
+    | some (.install ..) => true
     | _ => false
-  if !judgeHWQuorum isQC prev cur then "viol:hw-advanced-beyond-quorum-match" else
+  if !judgeHWQuorum exempt prev cur then "viol:hw-advanced-beyond-quorum-match" else
   let rv := judgeReplies prev cur
   if rv != "ok" then rv else
-  let unchanged := cur.stateText == prev.stateText && cur.replies.isEmpty
   match ev with
-  | some (.stored f _ _ _) | some (.quorum f _ _ _ _) =>
-    let fenceOk := f.key == 1 && f.gen == 7 && f.epoch == prev.epoch && f.lepoch == prev.lepoch &&
-      prev.inflightOp == some f.op
+  | some (.machine (.stored f _ _ _)) | some (.machine (.quorum f _ _ _ _)) =>
+    let fenceOk := fenceNow f && prev.inflightOp == some f.op
     if !fenceOk && !unchanged then "viol:stale-fence-result-had-effect" else "ok"
-  | some (.setMeta m) =>
+  | some (.machine (.setMeta m)) =>
     let mustReject := m.epoch < prev.epoch || (m.epoch == prev.epoch && m.lepoch < prev.lepoch) ||
       (m.epoch == prev.epoch && m.lepoch == prev.lepoch && m.leader != prev.leader)
     if mustReject && !(cur.err == "stale" && unchanged) then "viol:regressing-meta-not-rejected" else "ok"
-  | some (.ack _ _ _ _ m) | some (.pullAck _ m) =>
+  | some (.machine (.ack _ _ _ _ m)) | some (.machine (.pullAck _ m)) =>
     if m > prev.leo && !(unchanged && (cur.err == "stale")) then "viol:ack-beyond-leo-accepted" else "ok"
-  | some (.stoppedAck _ _ _ _ m _ _) =>
+  | some (.machine (.stoppedAck _ _ _ _ m _ _)) =>
     if m != prev.leo && !(unchanged && (cur.err == "stale")) then "viol:stopped-ack-not-at-leo-accepted" else "ok"
   | _ => "ok"
 
@@ -275,46 +343,81 @@ def stateOfObs (o : Obs) : State :=
     inflight := o.inflightOp.map (fun op => { op := op, recs := List.replicate o.inflightN 0,
                                                ops := o.inflightOps, counts := [] }) }
 
-def eventOf : Parsed → Option Event
-  | .ev e => some e
-  | .plainEv e => some e
+def eventOf : Parsed → Option REvent
+  | .ev e => some (.machine e)
+  | .plainEv e => some (.machine e)
+  | .rev e => some e
   | _ => none
 
 structure DState where
   s : State := {}
   fresh : Bool := true
   prev : Option Obs := none
+  -- model side: highest HW since the fence last changed (what the runner tracks for `m`)
+  mMax : Nat := 0
+  mE : Nat := 0
+  mL : Nat := 0
+  -- judge side: the same from the implementation's lines, and "an install lowered HW in this fence"
+  jMax : Nat := 0
+  jE : Nat := 0
+  jL : Nat := 0
+  jLowered : Bool := false
 
 def obsOfModel (s : State) : Obs :=
   (parseObs ("e=ok r=- t=- s=0 " ++ renderState s)).getD {}
 
 def c06Step (d : DState) (op impl : String) : DState × String × String :=
   let prev := d.prev.getD (obsOfModel d.s)
-  let finish (s' : State) (m : String) (_ : Option Event) : DState × String × String :=
+  -- bookkeeping shared by every outcome: model-side and judge-side fence maxima
+  let track (d0 : DState) (s' : State) (cur? : Option Obs) (ev : Option REvent) : DState :=
+    let (mMax, mE, mL) :=
+      if s'.epoch != d0.mE || s'.lepoch != d0.mL then (s'.hw, s'.epoch, s'.lepoch)
+      else (max d0.mMax s'.hw, d0.mE, d0.mL)
+    match cur? with
+    | none => { d0 with s := s', fresh := false, mMax := mMax, mE := mE, mL := mL }
+    | some cur =>
+      let fenceChanged := cur.epoch != d0.jE || cur.lepoch != d0.jL
+      let loweredNow := match ev with
+        | some (.install ..) => cur.hw < prev.hw && !fenceChanged
+        | _ => false
+      { d0 with s := s', fresh := false, prev := some cur, mMax := mMax, mE := mE, mL := mL,
+                jMax := if fenceChanged then cur.hw else max d0.jMax cur.hw,
+                jE := cur.epoch, jL := cur.lepoch,
+                jLowered := if fenceChanged then false else (d0.jLowered || loweredNow) }
+  let finish (s' : State) (m : String) : DState × String × String :=
     match parseObs impl with
-    | some cur => ({ s := s', fresh := false, prev := some cur }, m,
-                   judge (eventOf (parseOp (stateOfObs prev) op)) prev cur)
-    | none => ({ s := s', fresh := false, prev := some (obsOfModel s') }, m, "viol:unparseable-output")
-  match parseOp d.s op with
-  | .bad => ({ d with fresh := false }, "bad-op", "ok")
+    | some cur =>
+      let ev := eventOf (parseOp (stateOfObs prev) d.jMax op)
+      (track d s' (some cur) ev, m, judge ev prev cur d.jLowered d.jMax)
+    | none => (track { d with prev := some (obsOfModel s') } s' none none, m, "viol:unparseable-output")
+  match parseOp d.s d.mMax op with
+  | .bad => (track d d.s none none, "bad-op", "ok")
   | .init l leo hw ck =>
-    if !d.fresh then finish d.s (renderPlain "late-init" {} d.s) none
-    else if ck > hw || hw > leo then finish d.s (renderPlain "bad-init" {} d.s) none
+    if !d.fresh then finish d.s (renderPlain "late-init" {} d.s)
+    else if ck > hw || hw > leo then finish d.s (renderPlain "bad-init" {} d.s)
     else
       let s' := initState l leo hw ck
       -- the first observation has no predecessor: judge it against itself
       match parseObs impl with
-      | some cur => ({ s := s', fresh := false, prev := some cur }, renderPlain "ok" {} s', judge none cur cur)
-      | none => ({ s := s', fresh := false, prev := none }, renderPlain "ok" {} s', "viol:unparseable-output")
+      | some cur => (track { d with prev := some cur } s' (some cur) none, renderPlain "ok" {} s',
+                     if judgeWatermarks cur && judgeMatches cur && judgeConsistent cur then "ok"
+                     else "viol:bad-initial-state")
+      | none => (track d s' none none, renderPlain "ok" {} s', "viol:unparseable-output")
   | .ev e =>
     let r := step d.s e
-    finish r.1 (renderDecision r.2 r.1) (some e)
+    finish r.1 (renderDecision r.2 r.1)
   | .plainEv e =>
     let r := step d.s e
     let tag := match e with
       | .cancel _ => if r.2.cancelled then "true" else "false"
       | _ => errName r.2.err
-    finish r.1 (renderPlain tag r.2 r.1) (some e)
+    finish r.1 (renderPlain tag r.2 r.1)
+  | .rev e =>
+    let r := rstep d.s e
+    let tag := match e with
+      | .install .. => if r.2.cancelled then "ignored" else errName r.2.err
+      | _ => "-"
+    finish r.1 (renderPlain tag r.2 r.1)
 
 end C06Drv
 
